@@ -16,7 +16,14 @@ build() { # variant
     cover) out=bin/vcheck-cover; flags="-cover -covermode=atomic -coverpkg=github.com/coregx/coregex/...,verif/cmd/vcheck" ;;
     asan) out=bin/vcheck-asan; flags="-asan" ;;
   esac
-  (cd harness && cp /repo/go.sum go.sum 2>/dev/null; $GO build -tags verif $flags -o "../$out" ./cmd/vcheck) || { echo "INCONCLUSIVE: harness build failed ($v)"; exit 2; }
+  # build under a lock into a temporary name and rename: a check that is running keeps its binary (old inode),
+  # and two checks started at the same time never see a half-written file
+  (
+    flock 9
+    tmp="$out.tmp.$$"
+    (cd harness && cp /repo/go.sum go.sum 2>/dev/null; $GO build -tags verif $flags -o "../$tmp" ./cmd/vcheck) || { rm -f "$tmp"; exit 2; }
+    if [ -f "$out" ] && cmp -s "$tmp" "$out"; then rm -f "$tmp"; else mv -f "$tmp" "$out"; fi
+  ) 9>bin/.build.lock || { echo "INCONCLUSIVE: harness build failed ($v)"; exit 2; }
 }
 
 cmd=${1:-}
